@@ -4,6 +4,7 @@ package main
 
 import (
 	"fmt"
+	"strings"
 	"go/token"
 	"go/types"
 	"math/big"
@@ -162,6 +163,7 @@ func (f *Frame) doPanic(x *ssa.Panic, st *State) {
 	if f.top && f.contract != nil && len(f.contract.PanicsIf) > 0 {
 		// panic allowed exactly under the declared conditions
 		env := f.specEnv(f.entry, f.entry)
+		env.goal = true
 		var cs []string
 		for _, p := range f.contract.PanicsIf {
 			t, err := env.boolTerm(p.E)
@@ -579,7 +581,12 @@ func (f *Frame) load(p Val, t types.Type, st *State, pos token.Pos) Val {
 
 // nonNil reports pointers that are non-nil by construction.
 func (f *Frame) nonNil(p Val) bool {
-	return len(p.T) > 4 && (p.T[:4] == "ref$" || p.T[:5] == "glob$" || p.T[:5] == "(sub$" || p.T[:6] == "(|sub$" || p.T[:5] == "|ref$" || p.T[:6] == "|glob$")
+	for _, pre := range []string{"ref$", "|ref$", "glob$", "|glob$", "(sub$", "(|sub$"} {
+		if strings.HasPrefix(p.T, pre) {
+			return true
+		}
+	}
+	return false
 }
 
 func (f *Frame) store(p Val, v Val, st *State, pos token.Pos) {
@@ -589,6 +596,7 @@ func (f *Frame) store(p Val, v Val, st *State, pos token.Pos) {
 		return
 	}
 	if p.Loc != nil {
+		f.frameCheck(p.Loc.Heap, p.Loc.Key, pos, "store")
 		c.storeLoc(st, p.Loc, v.T)
 		return
 	}
@@ -600,6 +608,9 @@ func (f *Frame) store(p Val, v Val, st *State, pos token.Pos) {
 		f.oblige("nil", f.srcKey(pos, "store"), not(eq(p.T, "0")), pos, "nil dereference")
 	}
 	et := p.Typ.Underlying().(*types.Pointer).Elem()
+	for _, t := range c.objTargets(p.T, et) {
+		f.frameCheck(t.heap, t.key, pos, "store")
+	}
 	c.storeObj(st, p.T, et, v.T)
 }
 
@@ -1032,16 +1043,8 @@ func (f *Frame) mapUpdate(x *ssa.MapUpdate, st *State) {
 	v := f.val(x.Value)
 	mt := x.Map.Type().Underlying().(*types.Map)
 	f.oblige("nil", f.srcKey(x.Pos(), "mapupdate"), not(eq(m.T, "0")), x.Pos(), "assignment to entry in nil map")
-	d, vh := c.mapHeaps(mt)
-	dh := c.heapGet(st, d, c.heapSort[d])
-	vv := c.heapGet(st, vh, c.heapSort[vh])
-	c.heapSet(st, d, "(store "+dh+" "+m.T+" (store (select "+dh+" "+m.T+") "+k.T+" true))")
-	c.heapSet(st, vh, "(store "+vv+" "+m.T+" (store (select "+vv+" "+m.T+") "+k.T+" "+v.T+"))")
-	// length is not tracked precisely
-	lh := f.mapLenHeap()
-	fv := c.fresh("maplen")
-	c.declConst(fv, c.idxSort())
-	c.heapSet(st, lh, "(store "+c.heapGet(st, lh, c.heapSort[lh])+" "+m.T+" "+q(fv)+")")
+	_ = c
+	f.mapStore(st, mt, m.T, k.T, v.T, x.Pos())
 }
 
 // Range/Next: iteration in arbitrary order. The iterator is a ghost object
